@@ -13,7 +13,11 @@ def replay(prop, path):
         print('replaying %s (engine %s): %s' % (path, eng, rep.get('what', '')[:300]))
         if eng == 'world':
             sc = rep['script']
-            tf = we.run_scripts(ctx, rep.get('codec', 'int'), [{'id': 0, 'steps': sc['steps'], 'log_from': 0}], 'replay')
+            one = {'id': 0, 'steps': sc['steps'], 'log_from': sc.get('log_from', 0)}
+            if sc.get('blind'):
+                # the harness must look at the objects at the same moments as in the original run
+                one.update({'blind': True, 'pre': sc['pre']})
+            tf = we.run_scripts(ctx, rep.get('codec', 'int'), [one], 'replay')
             total, rejects = we.validate(ctx, [tf])
             lines = [json.loads(l) for l in open(tf)]
             for l in lines:
